@@ -246,6 +246,9 @@ def unroll_literal_loops(f, only_data_driven=False):
                    for m in f.cls.all_functions() for t in ast.walk(m.node))
       if v is not None and not stored:
         return literal_of(v)
+    if isinstance(it, ast.Name) and it.id in f.module.assigns and not any(
+        isinstance(s, ast.Name) and s.id == it.id and isinstance(s.ctx, ast.Store) for s in ast.walk(node)):
+      return literal_of(f.module.assigns[it.id])        # module-level table
     if isinstance(it, ast.Name):
       defs = [s for s in walk_no_nested(node) if isinstance(s, ast.Name) and s.id == it.id and isinstance(s.ctx, ast.Store)]
       if len(defs) == 1 and isinstance(getattr(defs[0], '_parent', None), ast.Assign) and len(defs[0]._parent.targets) == 1:
@@ -442,6 +445,9 @@ def _cloned(f):
     g_.outer = f
 
 
+_OPERATOR_CMP = {'lt': ast.Lt, 'le': ast.LtE, 'gt': ast.Gt, 'ge': ast.GtE, 'eq': ast.Eq, 'ne': ast.NotEq}
+
+
 def constant_setattr(f):
   """setattr(obj, 'name', v) -> obj.name = v ;  getattr(obj, 'name') -> obj.name   (constant names only)."""
   node = f.node
@@ -452,6 +458,10 @@ def constant_setattr(f):
         and isinstance(e.args[1], ast.Constant) and isinstance(e.args[1].value, str) and e.args[1].value.isidentifier():
       changed[0] = True
       return ast.Attribute(value=expr(e.args[0]), attr=e.args[1].value, ctx=ast.Load())
+    if isinstance(e, ast.Call) and isinstance(e.func, ast.Attribute) and isinstance(e.func.value, ast.Name) and e.func.value.id == 'operator' \
+        and e.func.attr in _OPERATOR_CMP and len(e.args) == 2 and not e.keywords:
+      changed[0] = True
+      return ast.Compare(left=expr(e.args[0]), ops=[_OPERATOR_CMP[e.func.attr]()], comparators=[expr(e.args[1])])
     if isinstance(e, (ast.FunctionDef, ast.ClassDef)):
       return e
     return dataflow._map_children(e, expr) if isinstance(e, ast.AST) else e
@@ -502,6 +512,8 @@ def _data_driven(loop):
       if isinstance(x, ast.Call) and isinstance(x.func, ast.Name) and x.func.id in ('setattr', 'getattr') and len(x.args) >= 2 \
           and isinstance(x.args[1], ast.Name) and x.args[1].id in names:
         return True
+      if isinstance(x, ast.Call) and isinstance(x.func, ast.Name) and x.func.id in names:
+        return True       # the table holds the function to apply
   return False
 
 
@@ -589,6 +601,12 @@ def conditional_assignments(f):
       if isinstance(st, ast.Try):
         for hd in st.handlers:
           hd.body = block(hd.body)
+      if isinstance(st, ast.Return) and isinstance(st.value, ast.IfExp):
+        a = ast.Return(value=st.value.body, lineno=st.lineno, col_offset=st.col_offset)
+        b = ast.Return(value=st.value.orelse, lineno=st.lineno, col_offset=st.col_offset)
+        out.append(ast.If(test=st.value.test, body=block([a]), orelse=block([b]), lineno=st.lineno, col_offset=st.col_offset))
+        changed[0] = True
+        continue
       if isinstance(st, ast.Assign) and len(st.targets) == 1 and isinstance(st.value, ast.IfExp) \
           and isinstance(st.targets[0], (ast.Name, ast.Attribute, ast.Tuple)):
         a = ast.Assign(targets=[dataflow.clone(st.targets[0])], value=st.value.body, lineno=st.lineno, col_offset=st.col_offset)
